@@ -331,7 +331,8 @@ fn gen_case(p: &Prog, rng: &mut Rng, thorough: bool, consensus: &Arc<Consensus>)
     let v = verifier(&rtx, consensus);
     let groups = measure(&v)?;
     let total: u64 = groups.iter().map(|g| g.0).sum();
-    if !thorough && total > 3_000_000 {
+    let heavy_prog = ["spawn-recursive", "spawn-io-cycles", "spawn-huge-swap", "spawn-saturate", "strcat-wrap", "spawn-17"].contains(&p.name);
+    if !thorough && (total > 3_000_000 || heavy_prog) {
         return None; // long-running programs: thorough tier only
     }
     let all_ok = groups.iter().all(|g| g.1 == 0);
@@ -353,8 +354,10 @@ fn gen_case(p: &Prog, rng: &mut Rng, thorough: bool, consensus: &Arc<Consensus>)
     }
     // chunk schedules driven to completion
     if !all_ok {
-        // cost unknown (the one-shot error carries no cycles): a few coarse schedules only
-        for l in ["5000", "1000000", "200000,400000", "30000,70000,110000"] {
+        // cost unknown (the one-shot error carries no cycles): coarse schedules only
+        let heavy = ["spawn-recursive", "spawn-io-cycles", "spawn-huge-swap", "spawn-saturate", "strcat-wrap", "spawn-17"].contains(&p.name);
+        let ls: &[&str] = if heavy { &["50000000"] } else { &["5000", "1000000", "200000,400000", "30000,70000,110000"] };
+        for l in ls {
             lines.push(format!("chunks {l}"));
         }
         return Some(lines);
